@@ -192,7 +192,13 @@ def _main(P, args, tier, seed, t0, wd):
         # something no longer checks but no failing input yet: search harder
         search_note = "escalated search"
         rng2 = random.Random(seed + 1)
-        extra = P.generate("thorough", rng2) if tier == "quick" else P.generate("thorough", rng2)
+        extra = P.generate("thorough", rng2)
+        # keep the search proportionate to the tier: the quick tier looks at most 8x further than it already did
+        cap = int(os.environ.get("VERIF_SEARCH_CAP", 0)) or (max(4000, 8 * len(cases)) if tier == "quick" else len(extra))
+        if len(extra) > cap:
+            rng2.shuffle(extra)
+            extra = extra[:cap]
+        search_note = "escalated search over %d further cases" % len(extra)
         ev2 = _eval_all(P, wd, extra, "search")
         base = len(cases)
         cases.extend(extra)
